@@ -19,6 +19,7 @@ type ObResult struct {
 	Func    string
 	Kind    string
 	SMTSize int
+	MaxSec  float64 // slowest single sub-query (wall time of the winning solver)
 }
 
 func prepare(o *Oblig) *Script {
@@ -161,6 +162,56 @@ func runBatch(obs []*Oblig, timeoutS int, all bool) {
 		}()
 	}
 	wg.Wait()
+	// second chance: a query that ended without an answer (time-out under machine load, a solver that could not
+	// start) is repeated once, with little parallelism and three times the budget, before it counts as undischarged.
+	var again []*job
+	for _, j := range jobs {
+		o0 := j.obs[0]
+		if o0.Soft || o0.Cover {
+			continue
+		}
+		switch o0.Res.Result {
+		case "timeout", "error", "none", "cancelled":
+			again = append(again, j)
+		}
+	}
+	if len(again) > 0 && len(again) <= 24 {
+		sem2 := make(chan struct{}, 3)
+		var wg2 sync.WaitGroup
+		for _, j := range again {
+			j := j
+			wg2.Add(1)
+			go func() {
+				defer wg2.Done()
+				sem2 <- struct{}{}
+				defer func() { <-sem2 }()
+				o0 := j.obs[0]
+				to := timeoutS * 3
+				if o0.TimeMul > 1 {
+					to *= o0.TimeMul
+				}
+				o0.NoSlice = true
+				sc2 := prepare(o0)
+				o0.NoSlice = false
+				for _, sc := range []*Script{j.sc, sc2} {
+					b, a := RunScript(o0.Name+"-retry", sc, to, all)
+					if b.Result == "unsat" || b.Result == "sat" {
+						for _, o := range j.obs {
+							o.Res, o.All = b, a
+							o.Retried = true
+						}
+						if b.Result == "unsat" {
+							break
+						}
+					}
+					if sc2.Text == j.sc.Text {
+						break
+					}
+				}
+			}()
+		}
+		wg2.Wait()
+	}
 }
 
 // Discharge runs all obligations (deduplicated by script text) in parallel.
@@ -229,6 +280,9 @@ func Discharge(obs []*Oblig, timeoutS int, all bool) []*ObResult {
 			continue
 		}
 		r.Seconds += o.Res.Seconds
+		if o.Res.Seconds > r.MaxSec {
+			r.MaxSec = o.Res.Seconds
+		}
 		r.Solvers[o.Res.Solver]++
 		if o.Soft {
 			if o.Group.Proven {
